@@ -275,6 +275,9 @@ impl Mon {
                     "stream_fold_unvisited_values" => {
                         taint.insert("F16".into());
                     }
+                    "fold_window_unread_states" => {
+                        taint.insert("F22".into());
+                    }
                     _ => {}
                 }
             }
